@@ -134,7 +134,8 @@ pub fn threads(sink: &mut Sink, seed: u64, thorough: bool, grp0: u64) {
             push(&mut events, &mut seq, set_event(grp, 0, 0, 1000, reg, val));
         }
         let shared = Arc::new(shared);
-        let shared_qr: Arc<Vec<QRCode>> = Arc::new((0..2).map(|k| qr_of(1 + (pi + k) % 5, seed + k as u64)).collect());
+        // two different QR codes of the SAME version: a renderer must tell them apart (its output depends on the QR code, not on its size)
+        let shared_qr: Arc<Vec<QRCode>> = Arc::new((0..2).map(|k| qr_of(1 + pi % 5, seed + 17 * k as u64 + pi as u64)).collect());
         let render_prog: Vec<Call> = vec![Call::Margin(pi % 5), Call::Shape(pi % 6)];
         let mut handles = Vec::new();
         for t in 1..=nthreads {
